@@ -8,6 +8,8 @@ import Ptn.C16.LoopDemo
 import Ptn.C16.TensorProduct
 import Ptn.C16.TensorProductValue
 import Ptn.C16.TensorProductGraph
+import Ptn.C16.TensorProductAbsorb
+import Ptn.C16.TensorProductPerm
 /-! Property theorems for C16. Only property theorems and non-vacuity examples live here. -/
 namespace Ptn.C16
 
@@ -592,9 +594,9 @@ and the untouched ket tensor elsewhere (`Ttndo.tpKetT`), `trace_ttndo` never rai
 copy at exactly the named sites and the logged pair of every named site) plus the two root pairs.  Proof: the logged
 pairs of a left operand are carried in front of the record by every routine (`Ttndo.contractAnyNodes_pre`), the C04
 routines are label-generic (`contract_any_nodes_general`), tree induction `Ttndo.tpLoop_subtree`.
-Missing for `tensor_product_graph`: (a) the induction over the loop `absorbAll` showing that its result IS such a
-network (one step is `absorb_graph`), (b) `Ttndo.tpBlockBinds sites kt` is a permutation of `Ttndo.tpSpec kt sites`
-for distinct sites of the tree (a counting argument as `count_blockBinds`). -/
+The two steps that were missing for `tensor_product_graph` - (a) the result of the loop `absorbAll` IS such a network,
+(b) `Ttndo.tpBlockBinds sites kt` plus the root pairs is a permutation of `Ttndo.tpSpec kt sites` - are
+`Ttndo.absorbAll_ttndo` and `Ttndo.tpBlockBinds_perm` (B59); the full statement is `tensor_product_graph` below. -/
 theorem tensor_product_trace_graph_partial (t : Ptn.C04.Tree) (hnd : t.ids.Nodup) (sites : List Nat) (nd : Ptn.C04.Net)
     (hr0 : nd.root = 0) (hord : nd.order = (Ttndo.ttndoNetK (Ttndo.ketTree t)).order)
     (hnode : nd.node = (Ttndo.ttndoNetK (Ttndo.ketTree t)).node)
@@ -619,6 +621,54 @@ example : ∃ nd, Ttndo.absorbAll [3] (Ttndo.ttndoNetK (Ttndo.ketTree (.node 0 [
     Ttndo.traceTtndo nd = some ⟨[], Ttndo.tpBlockBinds [3] (Ttndo.ketTree (.node 0 [.node 1 []])) ++
       [(Ttndo.rootKetLeg, Leg.gKet 1 0), (Ttndo.rootBraLeg, Leg.gBra 1 0)]⟩ :=
   ⟨_, rfl, by decide⟩
+
+open Ptn.C04 in
+/-- **`tensor_product_graph`, EVERY tree and every list of distinct sites (B59).**  For every state tree `t` with
+pairwise distinct identifiers and every list `ss` of pairwise distinct nodes of `t` (the keys of the `TensorProduct`
+in dict order: none, one, some, all, any order), `tensor_product_expectation_value` on the TTNDO of `from_ttns`
+(model `Ttndo.tensorProductExpectationValue`, the sites given by their ket identifiers) never raises, leaves no free
+leg, and its record is in the code's order `Ttndo.tpBlockBinds` plus the two root pairs, which is the specification
+graph `Ttndo.tpSpec` up to order: one pair (ket physical leg, operator input) per factor - for ALL factors -, the
+operator's output leg facing the bra copy's physical leg at exactly the named sites, the ket physical leg facing it at
+every other site, every ket edge, every bra edge, the two root pairs.  Proof: `Ttndo.absorbAll_ttndo` (loop invariant
+of the absorption loop; one step is `absorb_graph`), `Ttndo.tpTrace_eq` (B53), `Ttndo.tpBlockBinds_perm` (counting). -/
+theorem tensor_product_graph (t : Ptn.C04.Tree) (hnd : t.ids.Nodup) (ss : List Nat) (hss : ss.Nodup)
+    (hin : ∀ s ∈ ss, s ∈ t.ids) :
+    ∃ binds, Ttndo.tensorProductExpectationValue (Ttndo.ttndoNetK (Ttndo.ketTree t)) (ss.map Ttndo.ketOf) =
+        some ⟨[], binds⟩ ∧
+      binds = Ttndo.tpBlockBinds (ss.map Ttndo.ketOf) (Ttndo.ketTree t) ++
+        [(Ttndo.rootKetLeg, Leg.gKet (Ttndo.ketTree t).id 0), (Ttndo.rootBraLeg, Leg.gBra (Ttndo.ketTree t).id 0)] ∧
+      binds.Perm (Ttndo.tpSpec (Ttndo.ketTree t) (ss.map Ttndo.ketOf)) := by
+  obtain ⟨h1, h2⟩ := Ttndo.ketTree_wf t hnd
+  have hs' : (ss.map Ttndo.ketOf).Nodup :=
+    nodup_map_of_inj_on _ _ hss (fun x _ y _ e => by simp [Ttndo.ketOf] at e; omega)
+  have hin' : ∀ s ∈ ss.map Ttndo.ketOf, s ∈ (Ttndo.ketTree t).ids := by
+    intro s hs
+    obtain ⟨a, ha, rfl⟩ := List.mem_map.1 hs
+    rw [Ttndo.ketTree_ids]
+    exact List.mem_map.2 ⟨a, hin a ha, rfl⟩
+  exact ⟨_, Ttndo.tensorProduct_eq _ h1 h2 _ hs' hin', rfl, Ttndo.tpBlockBinds_perm _ h1 _ hs' hin'⟩
+
+/-- the decision procedure `Ttndo.tpRecordOk` (used by `tensor_product_graph_partial` on one tree) answers `true` on
+every tree and every list of distinct sites -/
+theorem tensor_product_graph_recordOk (t : Ptn.C04.Tree) (hnd : t.ids.Nodup) (ss : List Nat) (hss : ss.Nodup)
+    (hin : ∀ s ∈ ss, s ∈ t.ids) :
+    Ttndo.tpRecordOk (Ttndo.ketTree t) (ss.map Ttndo.ketOf) = true := by
+  obtain ⟨binds, h1, _, h3⟩ := tensor_product_graph t hnd ss hss hin
+  simp only [Ttndo.tpRecordOk, h1, List.isEmpty_nil, Bool.true_and]
+  exact List.isPerm_iff.2 h3
+
+/-- non-vacuity: the state tree `0 — (1, 2 — 3)` with factors on the sites 3, 0 (dict order) satisfies the hypotheses;
+the record has 2 logged pairs, 4 physical pairs, 3 ket edges, 3 bra edges and the 2 root pairs, and the operator
+outputs face the bra copy at exactly the ket copies 7 and 1 -/
+example : (Ptn.C04.Tree.node 0 [.node 1 [], .node 2 [.node 3 []]]).ids.Nodup ∧ [3, 0].Nodup ∧
+    (∀ s ∈ [3, 0], s ∈ (Ptn.C04.Tree.node 0 [.node 1 [], .node 2 [.node 3 []]]).ids) ∧
+    (Ttndo.tpSpec (Ttndo.ketTree (.node 0 [.node 1 [], .node 2 [.node 3 []]])) ([3, 0].map Ttndo.ketOf)).length = 14 ∧
+    (Ptn.C04.Leg.gOpOut 7, Ptn.C04.Leg.gBraPhys 7) ∈
+      Ttndo.tpSpec (Ttndo.ketTree (.node 0 [.node 1 [], .node 2 [.node 3 []]])) ([3, 0].map Ttndo.ketOf) ∧
+    (Ptn.C04.Leg.gKetPhys 3, Ptn.C04.Leg.gBraPhys 3) ∈
+      Ttndo.tpSpec (Ttndo.ketTree (.node 0 [.node 1 [], .node 2 [.node 3 []]])) ([3, 0].map Ttndo.ketOf) := by
+  decide
 
 /-! ## Value level of `tensor_product_expectation_value` (B42)
 
